@@ -60,9 +60,9 @@ fn is_keywordish(tok: &str) -> bool {
 /// input dimensions of the tokenizer (look-ahead windows, anchored patterns)
 pub fn name_grid() -> Vec<String> {
     let mut v = vec![];
-    for len in (1..=16usize).chain([24, 40]) {
+    for len in (1..=16usize).chain([24, 40, 63, 64, 65, 255, 256, 257, 1000]) {
         for pos in 0..len {
-            if len > 16 && pos % 5 != 0 && pos != len - 1 {
+            if len > 16 && pos % (if len > 40 { 61 } else { 5 }) != 0 && pos != len - 1 {
                 continue;
             }
             for special in ['-', '_', '7', 'Q'] {
